@@ -430,6 +430,11 @@ func generateTables(source *syntax.Model, out *grammar.Grammar, opts genOptions,
 	types := make(map[string]int)
 	cats := make(map[string]bool)
 	seenFlags := make(map[string]bool)
+	// Flags of injected tokens travel through the same listener as the flags of the rules.
+	for _, f := range out.Lexer.UsedFlags {
+		seenFlags[f] = true
+		parser.UsedFlags = append(parser.UsedFlags, f)
+	}
 	if parser.Types != nil {
 		for i, t := range parser.Types.RangeTypes {
 			types[t.Name] = i
